@@ -191,3 +191,54 @@ pub fn c20_lock_order_send_reset() {
     kani::cover!(true, "end");
     std::mem::forget(sr);
 }
+
+/// C18.lerr at the connection-level entry (`Actions::send_reset`, reached through
+/// `Streams::send_reset` for stream errors reported to `Connection::poll`: frames on
+/// forgotten streams, malformed HEADERS...): every library-initiated reset is counted
+/// against `max_local_error_reset_streams`; at the limit the answer is
+/// GOAWAY(ENHANCE_YOUR_CALM) and no RST_STREAM; user-initiated resets are not counted.
+pub fn c18_lerr_actions_send_reset_counted() {
+    let mut inner = mk_inner(peer::Dyn::Server);
+    let mut buffer: Buffer<Frame<SymBuf>> = crate::proto::streams::buffer::verif_h::with_capacity(4);
+    let id = StreamId::from(1);
+    let mut stream = Stream::new(id, 0, 65_535);
+    st_h::set_inner_open_streaming(&mut stream.state);
+    stream.ref_count = 1;
+    let key = crate::proto::streams::store::verif_h::insert_slab_only(&mut inner.store, stream);
+    let num: usize = kani::any();
+    let max: usize = kani::any();
+    let limited: bool = kani::any();
+    kani::assume(num <= max);
+    // without a configured limit the counter is a plain usize: 2^64 resets are not reachable
+    kani::assume(limited || num < usize::MAX);
+    counts_h::set_error_resets(&mut inner.counts, num, if limited { Some(max) } else { None });
+    let library: bool = kani::any();
+    let code: u32 = kani::any();
+    unsafe { crate::proto::streams::send::verif_h::G_SEND_RESETS = 0 };
+    let r = {
+        let p = inner.store.resolve(key);
+        inner.actions.send_reset(p, code.into(), if library { Initiator::Library } else { Initiator::User }, &mut inner.counts, &mut buffer)
+    };
+    let n1 = counts_h::get_error_resets(&inner.counts);
+    let sent = unsafe { crate::proto::streams::send::verif_h::G_SEND_RESETS };
+    match &r {
+        Ok(()) => {
+            assert!(sent == 1, "reset accepted but no RST_STREAM requested");
+            if library && limited {
+                assert!(num < max && n1 == num + 1, "C18.lerr: a library-initiated reset was not counted against max_local_error_reset_streams (the peer can force unbounded resets)");
+            } else if !library {
+                assert!(n1 == num, "user-initiated reset counted as a local error reset");
+            }
+        }
+        Err(g) => {
+            assert!(library && limited && num >= max, "reset within the quota refused");
+            assert!(g.reason == Reason::ENHANCE_YOUR_CALM && sent == 0 && n1 == num);
+        }
+    }
+    kani::cover!(r.is_err(), "limit_reached");
+    kani::cover!(r.is_ok() && library && limited, "counted");
+    kani::cover!(true, "end");
+    std::mem::forget(r);
+    std::mem::forget(buffer);
+    std::mem::forget(inner);
+}
